@@ -6,10 +6,10 @@ def plan(ctx):
     seed, tier = ctx["seed"], ctx["tier"]
     items = []
     if tier == "quick":
-        pools = [("panic", 220), ("general", 60), ("mutation", 40)]
+        pools = [("panic", 600), ("general", 150), ("mutation", 100)]
         cap = 20.0
     else:
-        pools = [("panic", 1200), ("general", 300), ("mutation", 200), ("widepanic", 600)]
+        pools = [("panic", 5000), ("general", 1000), ("mutation", 1000), ("widepanic", 3000)]
         cap = 120.0
     for profile, n in pools:
         for i in range(n):
